@@ -86,3 +86,30 @@ func vStubBufWrite(b *bytes.Buffer, p []byte) (int, error) {
 	return len(p), nil
 }
 func vStubBufBytes(b *bytes.Buffer) []byte { return vBufs[b] }
+
+// H12.3r the reader's half of the reader/decision contract: FindAction treats
+// input whose first byte is not 5 as "not for me" (DIRECT) and relies on the
+// request reader to have refused it.  The real Server.readRequest on an
+// arbitrary 10-byte string: success => version 5, Raw is exactly the bytes
+// read (what the decision is taken on), and the parsed destination is the one
+// those bytes name (what is dialled).
+func vH_C12_read_request() {
+	in := vNondetBytes("req", 10)
+	conn := &vFakeConn{in: in}
+	s := &Server{config: &Config{}}
+	req, err := s.readRequest(conn)
+	if err != nil {
+		return
+	}
+	vAssert(in[0] == 5, "only SOCKS version 5 requests are accepted by the reader (the decision function skips everything else)")
+	vAssert(len(req.Raw) >= 4 && req.Raw[0] == in[0] && req.Raw[1] == in[1] && req.Raw[3] == in[3], "the decision is taken on the bytes that were read")
+	vAssert(req.Command == in[1], "command as sent")
+	if in[3] == 1 {
+		ip4 := req.DstAddr.IP.To4()
+		vAssert(len(req.Raw) == 10 && ip4 != nil && ip4[0] == in[4] && ip4[1] == in[5] && ip4[2] == in[6] && ip4[3] == in[7], "the destination dialled is the IPv4 address in the request")
+		vAssert(req.DstAddr.Port == int(in[8])<<8|int(in[9]), "the port dialled is the one in the request")
+		for i := 0; i < 10; i++ {
+			vAssert(req.Raw[i] == in[i], "Raw = the request bytes")
+		}
+	}
+}
